@@ -48,6 +48,115 @@ def resample(infile, outfile, derfile, xs, typ):
     return rc, log
 
 
+# ---------------------------------------------------------------- flag column through csg_resample on long grids
+# csg_resample builds its output grid by repeated r += step, which drifts by some ulps from the decimal x of the input
+# file once |x| ~ 1 or after a few dozen additions; the flag of input row i must still arrive at output row i.
+RGRIDS = {"r3": ("0", "0.1", "3"), "r15": ("0", "0.01", "1.5"), "r12": ("0", "0.002", "1.2"),
+          "dih": ("-3.14", "0.02", "3.14"), "ang": ("0", "0.01", "3.14")}
+YCYC = ["0", "0.5", "1", "2", "1e-11"]
+
+
+def rgrid(gk):
+    lo, st, hi = (float(v) for v in RGRIDS[gk])
+    n = int(round((hi - lo) / st)) + 1
+    return ["%.10g" % (lo + k * st) for k in range(n)], st
+
+
+def rflags(pattern, n):
+    kind, _, arg = pattern.partition("@")
+    if kind == "oi":
+        k = int(arg)
+        return "o" * k + "i" * (n - k)
+    if kind == "io":
+        k = int(arg)
+        return "i" * k + "o" * (n - k)
+    if kind == "u":                      # a hole of `len` rows flagged u starting at row k in an all-i table
+        k, ln = (int(v) for v in arg.split("+"))
+        return "i" * k + "u" * ln + "i" * (n - k - ln)
+    if kind == "cyc":                    # every row differs from its neighbours: i,o,u,i,o,u,... shifted
+        return "".join("iou"[(j + int(arg)) % 3] for j in range(n))
+    raise ValueError(pattern)
+
+
+def run_rflag(case, verbose=False):
+    script, opts, gk, tabs = T.parsecase(case)
+    pattern = tabs[0][1]
+    xs, st = rgrid(gk)
+    n = len(xs)
+    flags = rflags(pattern, n)
+    ys = [YCYC[k % 5] for k in range(n)]
+    open("r_in.tab", "w").write("".join("%s %s %s\n" % (xs[k], ys[k], flags[k]) for k in range(n)))
+    der = opts.get("der") == "1"
+    for f in ("r_out.tab", "r_der.tab"):
+        if os.path.exists(f):
+            os.remove(f)
+    cmd = [pybsx.exe("csg_resample"), "--in", "r_in.tab", "--out", "r_out.tab", "--grid", ":".join(RGRIDS[gk]), "--type", opts["type"]]
+    if der:
+        cmd += ["--derivative", "r_der.tab"]
+    for attempt in range(8):
+        rc, so, se = T.spawn_patient(cmd, None, 120, subprocess.STDOUT)
+        log = so.decode(errors="replace")[-300:]
+        if rc in (126, 127) and "shared libraries" in log:
+            time.sleep(3)
+            continue
+        break
+    if rc is None:
+        return [("csg_resample-hang", "csg_resample did not terminate within 120 s and, re-run alone, within 1200 s")], "hang"
+    if rc != 0:
+        return [("resample-failed", "csg_resample rc=%d: %s" % (rc, log))], "died"
+    fails = []
+    moved = 0
+    for who, path in (("out", "r_out.tab"),) + ((("derivative", "r_der.tab"),) if der else ()):
+        if not os.path.exists(path):
+            fails.append(("resample-%s-no-output" % who, "no table %s written" % path))
+            continue
+        rows = T.rows_of(open(path).read())
+        if len(rows) != n or any(len(r) != 3 for r in rows):
+            fails.append(("resample-%s-malformed-table" % who, "%d rows (input %d): %r" % (len(rows), n, rows[:3])))
+            continue
+        ox = [T.fl(r[0]) for r in rows]
+        bad = []
+        j = 0
+        for i in range(n):                  # output row at nominally the same x: nearest, within step/2
+            xi = float(xs[i])
+            while j + 1 < n and abs(ox[j + 1] - xi) < abs(ox[j] - xi):
+                j += 1
+            if abs(ox[j] - xi) > st / 2:
+                fails.append(("resample-%s-grid-changed" % who, "no output row within step/2 of x=%s" % xs[i]))
+                break
+            if rows[j][2] != flags[i]:
+                bad.append((i, j))
+            if who == "out" and abs(T.fl(rows[j][1]) - float(ys[i])) > 1e-8:
+                fails.append(("resample-same-grid-not-identity", "x=%s: y=%s, input %s" % (xs[i], rows[j][1], ys[i])))
+                break
+        if bad:
+            i, j = bad[0]
+            moved += len(bad)
+            nb = flags[i + 1] if i + 1 < n else "-"
+            fails.append(("resample-%s-flag-moved-on-long-grid" % who,
+                          "grid %s, flags %s: %d row(s) carry the wrong flag, first at x=%s: output flag %s, input flag %s (next input row has %s)"
+                          % (":".join(RGRIDS[gk]), pattern, len(bad), xs[i], rows[j][2], flags[i], nb)))
+        if verbose:
+            print(who, "first rows:", rows[:4], "... mismatches:", bad[:10])
+    return fails, ("rflag", gk, opts["type"], der, pattern.partition("@")[0])
+
+
+def gen_rflag(tier):
+    th = tier == "thorough"
+    for gk in (("r3", "r15", "r12", "dih", "ang") if th else ("r3", "r15")):
+        n = len(rgrid(gk)[0])
+        pats = ["cyc@0", "cyc@1", "cyc@2"]
+        pats += ["oi@%d" % k for k in range(1, n)] + ["io@%d" % k for k in range(1, n)]       # every border position
+        pats += ["u@%d+1" % k for k in range(1, n - 1)]                                       # hole start at k, end at k+1
+        if th or gk == "r3":
+            pats += ["u@%d+3" % k for k in range(1, n - 3)]
+        full = th or gk == "r3"
+        combos = [("linear", "1"), ("akima", "1"), ("cubic", "1"), ("linear", "0")] + ([("akima", "0"), ("cubic", "0")] if full and gk in ("r3", "r15") else [])
+        for pat in pats:
+            for typ, d in combos:
+                yield T.mkcase("rflag", dict(type=typ, der=d), gk, [[["p"], pat]])
+
+
 def integrate(infile, outfile, frm):
     if os.path.exists(outfile):
         os.remove(outfile)
@@ -79,6 +188,8 @@ def in_hull(v, a, b, tol):
 
 
 def run_case(case, verbose=False):
+    if case.startswith("rflag|"):
+        return run_rflag(case, verbose)
     script, opts, g, tabs = T.parsecase(case)
     ys, flags = tabs[0][0], tabs[0][1]
     n = len(ys)
@@ -219,14 +330,18 @@ def main():
               "and all one-cell deviations of a 7-row base; table_integrate.pl --from left|right then csg_resample --derivative "
               "--type linear|cubic|akima on the same grid (forward), and csg_resample --derivative (linear) then table_integrate.pl (backward); "
               "oracle: derived discretisation bounds (see file header) + 1e-9 print precision, flags and grid preserved by both tools. "
-              "Distinct = (direction, type, from, flags, zero pattern of the result).")
-    for i, cs in enumerate(gen(a.tier)):
+              "Distinct = (direction, type, from, flags, zero pattern of the result). "
+              "Flag column on long grids (rflag): same-grid csg_resample --type linear|akima|cubic with and without --derivative on "
+              "0:0.1:3 and 0:0.01:1.5 (thorough also 0:0.002:1.2, -3.14:0.02:3.14, 0:0.01:3.14), flags = EVERY position of an o|i border, "
+              "of an i|o border, of a 1-row (and 3-row) u hole, plus the 3 shifts of the cyclic i,o,u pattern; oracle: the output row nearest "
+              "(within step/2) to input x_i carries input flag i in the --out and the --derivative table, y(out)=y(in).")
+    for i, cs in enumerate(itertools.chain(gen(a.tier), gen_rflag(a.tier))):
         if not a.mine(i):
             continue
         fails, sig = run_case(cs)
         R.eval()
         R.cls(sig)
-        R.count(cs.split("|")[1])
+        R.count(cs.split("|")[1] if not cs.startswith("rflag|") else "rflag." + cs.split("|")[2])
         for key, what in fails:
             R.fail(key, what, cs)
         if not fails and i % 997 == 500:
